@@ -14,5 +14,83 @@ def run(ctx):
     if res is None:
         return
     bad, n = res
+    import sx, gen
+    from gen import case, S
+    import props.c13 as c13
+    g, pols = cc.gen_policies(ctx, 800 if ctx.tier == 'quick' else 30000)
+    pols = [p for p in pols if not lib.has_4in6(sx.dump(p))]
+    enc_cases = [case('e%d' % i, 'pjsonenc', p) for i, p in enumerate(pols)]
+    go_e, mo_e, m1 = lib.differential(ctx, enc_cases, 'pjsonenc', project=c13.proj_tree,
+                                      describe='Policy.MarshalJSON: Go and the Coq model (Impl/PolicyJson.v enc_policy) produce different JSON trees')
+    ctx.oblige('correspondence: Policy.MarshalJSON = PolicyJson.enc_policy as JSON trees on %d policies' % len(enc_cases), 'correspondence', not m1)
+    # decoding: the encoder's own trees, and structure-aware mutants of them (member deletion / null / duplication / wrong kind / reordering /
+    # extra typed keys / junk keys), Go verdict and tree = model
+    r = ctx.rng
+    trees = []
+    for c in enc_cases:
+        res_ = go_e.get(lib.case_id(c), '')
+        if res_.startswith('(tree '):
+            trees.append(sx.parse(res_)[1])
+    JUNK = [['null'], ['num', '1'], ['str', S('x')], ['arr'], ['obj'], ['bool', '1'], ['obj', [S('Value'), ['num', '1']]], ['arr', ['obj', [S('Var'), ['str', S('principal')]]]]]
+
+    def nodes(t, path=()):
+        yield path, t
+        if not isinstance(t, str) and t and t[0] == 'arr':
+            for i, x in enumerate(t[1:]):
+                yield from nodes(x, path + (i + 1,))
+        elif not isinstance(t, str) and t and t[0] == 'obj':
+            for i, kv in enumerate(t[1:]):
+                yield from nodes(kv[1], path + (i + 1, 1))
+
+    def replace(t, path, f):
+        if not path:
+            return f(t)
+        t = list(t)
+        t[path[0]] = replace(t[path[0]], path[1:], f)
+        return t
+
+    def mutate(t):
+        ns = list(nodes(t))
+        path, sub = r.choice(ns)
+        k = r.randrange(8)
+        if k == 0: return replace(t, path, lambda x: r.choice(JUNK))
+        objs = [(p_, x) for p_, x in ns if not isinstance(x, str) and x and x[0] == 'obj' and len(x) > 1]
+        if not objs: return replace(t, path, lambda x: ['null'])
+        p_, o = r.choice(objs)
+        i = r.randrange(1, len(o))
+        if k == 1: return replace(t, p_, lambda x: x[:i] + x[i + 1:])                                   # delete a member
+        if k == 2: return replace(t, p_, lambda x: x[:i] + [[x[i][0], ['null']]] + x[i + 1:])             # null member
+        if k == 3: return replace(t, p_, lambda x: x + [[x[i][0], r.choice(JUNK)]])                       # duplicate key, last wins
+        if k == 4: return replace(t, p_, lambda x: [x[0]] + r.sample(x[1:], len(x) - 1))                  # reorder members
+        if k == 5: return replace(t, p_, lambda x: x + [[S(r.choice(['zz', 'Value', 'Var', 'Set', '==', 'decimal', 'isIpv4', 'left', 'op', 'entity'])), r.choice(JUNK)]])
+        if k == 6: return replace(t, p_, lambda x: x[:i] + [[S(r.choice(['decimal', 'ip', 'isInRange', 'nosuch', 'contains', 'Record'])), x[i][1]]] + x[i + 1:])
+        return replace(t, path, lambda x: ['arr', x])
+    dec_trees = list(trees)
+    for t in trees:
+        for _ in range(2 if ctx.tier == 'quick' else 6):
+            dec_trees.append(mutate(t))
+    dec_cases = [case('d%d' % i, 'pjsondec', t) for i, t in enumerate(dec_trees)]
+
+    def proj_dec(res_):
+        return lib.canon_str(res_)
+    go_d = lib.run_go(dec_cases, 'pjsondec', ctx.workdir)
+    mo_d = lib.run_model(dec_cases, 'pjsondec', ctx.workdir)
+    mism, unk, acc = 0, 0, 0
+    for c in dec_cases:
+        cid = lib.case_id(c)
+        g_, m_ = proj_dec(go_d.get(cid, '(missing)')), proj_dec(mo_d.get(cid, '(missing)'))
+        ctx.count(c[:3000], g_.startswith('(ok'))
+        if m_ == '(unmodelled)':
+            unk += 1
+            continue
+        acc += g_.startswith('(ok')
+        if g_ != m_:
+            mism += 1
+            if mism <= 6:
+                ctx.violation('Policy.UnmarshalJSON: Go and the Coq model (Impl/PolicyJson.v dec_policy) disagree: go=%s model=%s' % (g_[:300], m_[:300]),
+                              dict(kind='case', case=c, go=g_, model=m_))
+    ctx.extra['pjsondec'] = dict(cases=len(dec_cases), accepted=acc, unmodelled=unk)
+    ctx.oblige('correspondence: Policy.UnmarshalJSON = PolicyJson.dec_policy on %d JSON trees (encoder outputs and structural mutants; %d outside the modelled domain)'
+               % (len(dec_cases), unk), 'correspondence', mism == 0)
     ctx.oblige('direct oracle: JSON round trip (identical AST, stable bytes, ids, commutation with text, same meaning) on %d cases' % n, 'oracle', bad == 0)
     lib.epilogue(ctx)
